@@ -288,11 +288,22 @@ def run(rep, tier):
                                            and vec_field(x["recv"]) == snap) == "some"
             if not consumed:
                 continue
+            def helper_ops(node):
+                """operations on the popped vector inside a `&mut self` helper of Stack that this call runs"""
+                h = c.fn(callee(node)) if isinstance(callee(node), str) else None
+                if h is None or h is cs or h.get("impl_self") != cs.get("impl_self") or h.get("body") is None \
+                        or not (h.get("inputs") and str(h["inputs"][0]).startswith("&mut")):
+                    return []
+                return [x for x in walk(h["body"]) if kind(x) == "MethodCall" and vec_field(x["recv"]) in popped_fields
+                        and x["m"] not in ("len", "is_empty", "capacity")]
+
             def adjusts(e):
                 if e.kind != "call":
                     return False
                 if kind(e.node) == "MethodCall" and e.node["m"] in ("drain", "truncate", "split_off", "clear") \
                         and vec_field(e.node["recv"]) in popped_fields:
+                    return True
+                if any(o["m"] in ("drain", "truncate", "split_off", "clear") for o in helper_ops(e.node)):
                     return True
                 # `discard(&mut self.popped, ..)`: the vector handed to a helper by mutable reference
                 for a in hirq.call_args(e.node):
@@ -310,6 +321,9 @@ def run(rep, tier):
             if has_parent and appends:
                 ops = [e.node for e in ev if e.kind == "call" and kind(e.node) == "MethodCall"
                        and vec_field(e.node["recv"]) in popped_fields and e.node["m"] not in ("len", "is_empty", "capacity")]
+                for e in ev:
+                    if e.kind == "call":
+                        ops += helper_ops(e.node)
                 handed = any(kind(a) == "AddrOf" and a.get("mut") and vec_field(a["e"]) in popped_fields
                              for e in ev if e.kind == "call" for a in hirq.call_args(e.node))
                 r5.instance("clear:which-end", where(cs["body"]), ",".join(o["m"] for o in ops))
